@@ -1,4 +1,5 @@
 """C12 - allele-aware overlap iteration returns exactly the allele-compatible records."""
+import itertools
 from .. import impl
 from ..common import exc_name, has_unmodelled
 from ..runner import Outcome
@@ -170,7 +171,70 @@ def run(ctx):
         if len(out.samples) < 3 and len(want) >= 2:
             out.sample(dict(where, groups=groups))
     two_pass_cases(ctx, out)
+    interleaved_cases(ctx, out)
     return out
+
+
+def eval_interleaved(recs_a, recs_b, contigs, by_barcodes, rel, take):
+    """Two allele-aware iterators alive at the same time (the first one is asked for `take` groups, then a second one over
+    other inputs is run to the end, then the first is finished): each returns the documented result for ITS inputs."""
+    from maflib.overlap_iter import AlleleOverlapType, LocatableByAlleleOverlapIterator
+    ia, ib = inputs_of(recs_a), inputs_of(recs_b)
+    stored = {"kind": "interleaved", "recs": recs_a, "recs_b": recs_b, "contigs": contigs, "by_barcodes": by_barcodes, "relation": rel, "take": take}
+
+    def mk(inputs):
+        return LocatableByAlleleOverlapIterator([iter(x) for x in inputs], contigs=contigs, by_barcodes=by_barcodes, overlap_type=AlleleOverlapType[rel])
+
+    def want(inputs):
+        pos, pexc = c11.run_impl(inputs, contigs, by_barcodes)
+        return None if pexc else expected(pos, rel, {x.rid: x for inp in inputs for x in inp})
+    try:
+        wa, wb = want(ia), want(ib)
+        if wa is None or wb is None:
+            return {"failures": []}
+        a = mk(ia)
+        got_a = []
+        for _ in range(take):
+            try:
+                got_a.append([[x.rid for x in slot] for slot in next(a)])
+            except StopIteration:
+                break
+        got_b = [[[x.rid for x in slot] for slot in g] for g in itertools.islice(mk(ib), 300)]
+        for g in itertools.islice(a, 300):
+            got_a.append([[x.rid for x in slot] for slot in g])
+    except Exception as e:  # noqa
+        return {"failures": [dict(stored, what="two allele-aware iterators alive at the same time: iteration failed with %s" % exc_name(e))]}
+    fails = []
+    if got_b != wb:
+        fails.append(dict(stored, what="an allele-aware iterator started while another one was part-way through does not return the documented result for its own inputs", expected=wb, got=got_b))
+    elif got_a != wa:
+        fails.append(dict(stored, what="an allele-aware iterator that was part-way through while another one ran does not return the documented result for its own inputs", expected=wa, got=got_a))
+    return {"failures": fails}
+
+
+def interleaved_cases(ctx, out):
+    rng = ctx.rng("c12", "interleaved")
+    for _ in range(ctx.scale(120, 1000)):
+        cfg = []
+        contigs = by_barcodes = None
+        for _k in range(2):
+            n_inputs, cs, bb, items = c11.gen_config(rng, 6)
+            if contigs is None:
+                contigs, by_barcodes = cs, bb
+            seed = rng.randrange(10**9)
+
+            def alleles(rid, seed=seed):
+                import random
+                r = random.Random(seed * 1000 + rid)
+                return r.choice(["A", "A", "AT"]), tuple(r.choice(ALTS))
+            # same chromosome universe / contig list for both: only the records differ
+            items = [it for it in items if contigs is None or it[2] in contigs]
+            cfg.append(c11.build_inputs(n_inputs, contigs, by_barcodes, items, alleles=alleles))
+        out.evaluations += 1
+        e = eval_interleaved(recs_of(cfg[0]), recs_of(cfg[1]), contigs, by_barcodes, rng.choice(RELS), rng.choice([0, 1, 1, 2]))
+        out.failures += e["failures"]
+        out.distribution["two iterators alive at the same time"] += 1
+        out.nontrivial.add(("interleaved", repr(recs_of(cfg[0])), repr(recs_of(cfg[1]))))
 
 
 def eval_two_pass(recs, recs2, contigs, by_barcodes, rel):
@@ -235,6 +299,13 @@ def two_pass_cases(ctx, out):
 
 def replay_case(ctx, failure):
     """Re-evaluate the stored inputs on the current implementation; the failures they produce now ([] = property holds)."""
+    if failure.get("kind") == "interleaved" and "recs_b" in failure:
+        e = eval_interleaved(failure["recs"], failure["recs_b"], failure.get("contigs"), failure["by_barcodes"], failure["relation"], failure.get("take", 1))
+        print("replay C12: an allele-aware iterator (overlap_type=%s, by_barcodes=%s, contigs=%s) is asked for %d group(s); a second one over other inputs is run to the end; the first is finished" % (
+            failure["relation"], failure["by_barcodes"], failure.get("contigs"), failure.get("take", 1)))
+        for f in e["failures"]:
+            print("  oracle: %s (expected %s, got %s)" % (f["what"], f.get("expected"), f.get("got")))
+        return e["failures"]
     if failure.get("kind") == "two-pass" and "recs2" in failure:
         e = eval_two_pass(failure["recs"], failure["recs2"], failure.get("contigs"), failure["by_barcodes"], failure["relation"])
         print("replay C12: the same MafRecord objects iterated twice (overlap_type=%s, by_barcodes=%s, contigs=%s); alleles changed in place between the passes" % (
